@@ -2491,6 +2491,8 @@ class Wallet(object):
                     if hardened_child:
                         key_idx = "%s'" % key_idx
                     ck = parent_key.subkey_for_path(key_idx, network=network)
+                    ck.witness_type = witness_type
+                    ck.encoding = encoding
                     key_name = 'address index %s' % key_idx.strip("'")
                     newpath = '/'.join(newpath.split('/')[:-1] + [key_idx])
                     new_keys.append(WalletKey.from_key(
